@@ -500,4 +500,10 @@ def r2_14(ctx):
     borrow(ctx, r5_8, "R5.8", "R2.14", " [a line is divided exactly when it does not fit: Text.wrap may skip divide_line only on a test in cells, and the widths it hands to truncate / rstrip_end / justify are the cell width it was given]")
 
 
-RULES = [r2_1, r2_2, r2_3, r2_4, r2_5, r2_6, r2_7, r2_8, r2_10, r2_9, r2_11, r2_12, r2_13, r2_14]
+def r2_15(ctx):
+    from .c05 import r5_7
+    from .common import borrow as _borrow
+    _borrow(ctx, r5_7, "R5.7", "R2.15", " [wrap() works on copies of the lines (split / divide / copy) and then pads, trims and crops them in place: a copy that shares its span list with the original corrupts the styles of the text that was wrapped, and the next wrap of the same object shows them]")
+
+
+RULES = [r2_1, r2_2, r2_3, r2_4, r2_5, r2_6, r2_7, r2_8, r2_10, r2_9, r2_11, r2_12, r2_13, r2_14, r2_15]
